@@ -579,6 +579,8 @@ pub(crate) struct CaseResult {
     pub(crate) virt_ms: u64,
     pub(crate) expected_dirs: u64,
     pub(crate) complete_dirs: u64,
+    /// origin of `evs[..].t_us` on the clock of `sim::PktEv::at`
+    pub(crate) hist_start: Option<tokio::time::Instant>,
 }
 
 /// Canonical application-level summary of a run (no timing, no chunk boundaries): per endpoint and stream the
@@ -672,6 +674,7 @@ pub(crate) async fn one_case_adv(adversary: Box<dyn sim::Adversary>, plans: Vec<
         virt_ms: 0,
         expected_dirs: expected_dirs(&plans),
         complete_dirs: 0,
+        hist_start: Some(h.start()),
     };
     let conn = match pair.connect().await {
         Ok(c) => c,
